@@ -115,7 +115,8 @@ fn main() {
     } else {
         let thorough = tier == "thorough";
         let id = args[1].to_uppercase();
-        let r = util::catch(|| match id.as_str() {
+        alloc::set_current_check(&id);
+        let r = util::catch_harness(|| match id.as_str() {
             "C01" => c01::run(thorough),
             "C02" => c02::run(thorough),
             "C03" => c03::run(thorough),
